@@ -552,9 +552,17 @@ func runCheck(id, tier string, cfg propCfg) int {
 		}
 		// confirm in a fresh process (try up to 3 records of this signature)
 		confirmed := -1
+		// (a run that ends the process - deadlock, runtime fatal - reproduces when it dies the same way)
+		same := func(spec []byte, events bool) (bool, result) {
+			r, stderr, err := runSpec(bin, cfg.Sim, id, spec, scr, events)
+			if err != nil {
+				v, ok := classifyCrash(id, stderr)
+				return ok && v.Sig == sig, r
+			}
+			return hasSig(r, id, sig), r
+		}
 		for k := 0; k < len(recs) && k < 8; k++ {
-			r, _, err := runSpec(bin, cfg.Sim, id, recs[k].Spec, scr, false)
-			if err == nil && hasSig(r, id, sig) {
+			if ok, _ := same(recs[k].Spec, false); ok {
 				confirmed = k
 				break
 			}
@@ -565,7 +573,7 @@ func runCheck(id, tier string, cfg propCfg) int {
 		}
 		rec := recs[confirmed]
 		if len(rec.Respec) > 0 {
-			if r, _, err := runSpec(bin, cfg.Sim, id, rec.Respec, scr, false); err == nil && hasSig(r, id, sig) {
+			if ok, _ := same(rec.Respec, false); ok {
 				rec.Spec = rec.Respec // the explicit form reproduces: minimise that
 			}
 		}
@@ -574,8 +582,8 @@ func runCheck(id, tier string, cfg propCfg) int {
 		stable := true
 		var last result
 		for k := 0; k < 3; k++ {
-			r, _, err := runSpec(bin, cfg.Sim, id, min, scr, true)
-			if err != nil || !hasSig(r, id, sig) {
+			ok, r := same(min, true)
+			if !ok {
 				stable = false
 			}
 			last = r
